@@ -78,7 +78,14 @@ class C20(vlib.Check):
                     ks.append("custom_opt")
                 d[sec] = [[k, tag_val(gen_value(rng))] for k in ks]
             self.count("roundtrip")
-            yield {"t": "roundtrip", "opts": d, "fill": rng.random() < 0.5}
+            case = {"t": "roundtrip", "opts": d, "fill": rng.random() < 0.5}
+            if rng.random() < 0.15:
+                # earlier in the same process a variant was derived from the packaged-defaults object (documented usage:
+                # update_params(..., params=default_params)); a later file read with fill_defaults still falls back to the *packaged* values
+                case["derive_first"] = {"level": rng.choice([2, 7]), "counts": True, "stereo": False, "bits": 4096}
+                case["fill"] = True
+                self.count("roundtrip:after-deriving-from-default_params")
+            yield case
         for k in range(6 if self.tier == "quick" else 30):
             self.count("file-vs-direct")
             yield {"t": "direct", "seed": rng.randrange(10 ** 6)}
@@ -87,6 +94,8 @@ class C20(vlib.Check):
     def _roundtrip(self, case):
         from e3fp.config import params as P
         from e3fp.pipeline import params_to_dicts
+        if case.get("derive_first"):
+            P.update_params(dict(case["derive_first"]), params=P.default_params, section_name="fingerprinting")
         cp = configparser.ConfigParser()
         for sec in SECTIONS:
             P.update_params({k: untag(v) for k, v in case["opts"][sec]}, cp, section_name=sec)
